@@ -415,7 +415,13 @@ def gen_c16(seed, params):
         cand = [n for n in names if info["names"][n][0] in info["pool"] and info["names"][n][0] not in cl]
     else:
         cand = names
-    reads = sorted({_mixcase(rc, n) for n in rc.sample(cand, min(nreads, len(cand)))})
+    picked = rc.sample(cand, min(nreads, len(cand)))
+    if avoid:
+        uniq = {}
+        for n in picked:
+            uniq.setdefault(info["names"][n][0], n)
+        picked = list(uniq.values())
+    reads = sorted({_mixcase(rc, n) for n in picked})
     cons["reads_registers"] = reads
     avail = available_scratch(abi, cons)
     if avail and rc.random() < 0.55:
@@ -459,8 +465,10 @@ def known_triggers_c16(abi, cons, func):
     saves = bool(cl or cons["scratch_registers"] or cons["preserve_caller_saved_registers"])
     if abi == "x64-elf" and cons["align_stack"] and not saves and not cons["clobbers_flags"] and func["kind"] != "nonleaf":
         out.append("align_stack-only-leaf")
-    if (rd & cl) or (rd - set(info["pool"])):
-        out.append("read-register-not-in-pool")
+    rd_list = [canon(abi, n)[0] for n in cons["reads_registers"]]
+    if (rd & cl) or (rd - set(info["pool"])) or len(rd_list) != len(rd):
+        # read register that is also clobbered / not allocatable anyway / named twice through aliases
+        out.append("unguarded-read-register-removal")
     if abi == "arm64-elf" and cons["clobbers_flags"] and not cons["scratch_registers"] and not available_scratch(abi, cons):
         out.append("no-free-flags-register")
     return out
@@ -677,6 +685,18 @@ def gen_c17(seed, params):
     if rk.random() < 0.15:
         names = sorted(info["names"])
         kwargs["clobbers_registers"] = sorted(rk.sample(names, rk.randint(0, 5)))
+    if "scratch_registers" in kwargs:
+        # what CallPatch will declare clobbered (unless overridden)
+        if "clobbers_registers" in kwargs:
+            clob = list(kwargs["clobbers_registers"])
+        else:
+            clob = list(eff_conv["registers"][: min(nargs, nregs)])
+            if info["cpu"] == "arm64":
+                clob += ["x30"] + (["x0"] if nargs > nregs else [])
+        room = len(available_scratch(abi, {"clobbers_registers": clob, "reads_registers": []}))
+        kwargs["scratch_registers"] = min(kwargs["scratch_registers"], room)
+        if not kwargs["scratch_registers"]:
+            del kwargs["scratch_registers"]
     func = gen_func(streams.get("gen.func"), abi, params)
     align_stack = kwargs.get("align_stack", info["cpu"] != "arm64")
     ri = streams.get("gen.init")
@@ -753,7 +773,7 @@ class Sim:
             if not isinstance(e, gtirb.SymAddrConst):
                 raise core.HarnessError(f"machsim: unsupported symbolic expression {e!r}")
             attrs = sorted(a.name for a in e.attributes)
-            if any(a not in ("LO12", "PAGE") for a in attrs):
+            if any(a not in ("LO12", "PLT") for a in attrs):
                 raise core.HarnessError(f"machsim: unsupported symbolic expression attributes {attrs}")
             link[off] = (e.symbol.name, e.offset, attrs)
         if cap["sections"] != [".text"]:
@@ -900,8 +920,8 @@ def execute_c16(sc, params, stats):
         trig = known_triggers_c16(abi, cons, func)
         if "unable to allocate" in str(e):
             why = "refused-satisfiable-request"
-        elif "read-register-not-in-pool" in trig and where[-1] == "_allocate_patch_registers":
-            why = "read-register-not-in-pool"
+        elif "unguarded-read-register-removal" in trig and where[-1] == "_allocate_patch_registers" and "list.remove" in str(e):
+            why = "unguarded-read-register-removal"
         elif "no-free-flags-register" in trig and where[-1] == "_create_prologue_and_epilogue":
             why = "no-free-flags-register"
         else:
